@@ -208,6 +208,15 @@ def case_b(draw, tier="quick"):
         keyed.append((pos + delay, len(keyed), pu, pts))
         if fate == "dup":
             keyed.append((pos + draw(st.integers(0, 80)), len(keyed), pu, pts))
+    # contiguous runs replayed later as a block (retransmission of a NACKed range, route flap)
+    for _ in range(draw(st.integers(0, 3))):
+        if not stream:
+            break
+        a = draw(st.integers(0, len(stream) - 1))
+        ln = draw(st.integers(1, 12))
+        at = a + ln + draw(st.integers(0, 70))
+        for j, (pu, pts) in enumerate(stream[a:a + ln]):
+            keyed.append((at + j * 0.01, len(keyed), pu, pts))
     keyed.sort()
     hi = None
     for _, _, pu, pts in keyed:
@@ -392,6 +401,119 @@ def run_c(case: dict) -> Outcome:
     return Outcome(None, None, reorder, tuple(sorted(r.classes | ({"reorder"} if reorder else set()))))
 
 
+# ---------------------------------------------------------------------------
+# family D: complete, every packet displaced by at most d positions (two-sided), with
+# 2*d + 2*(prefetch+1)*m + 2 <= capacity.  Unlike family C the precondition does not look at the
+# buffer under test at all.  Why it is sufficient for the release rule (at most one frame per add):
+# after t arrivals every packet up to index t-d has arrived and none beyond t+d; the backlog of
+# complete-but-unreleased packets is at most d + (prefetch+1)*m, the frames the rule still holds
+# back at most (prefetch+1)*m more, and arrivals ahead of the contiguous part at most d.
+
+
+@st.composite
+def case_d(draw, tier="quick"):
+    cfg = draw(st.sampled_from([(16, 4, 1), (16, 4, 1), (128, 0, 8), (128, 0, 1), None, None]))
+    if cfg is None:
+        m = draw(st.integers(1, 6))
+        prefetch = draw(st.integers(0, 4))
+        caps = [c for c in CAPS if c >= 2 + 2 * (prefetch + 1) * m + 2]
+        cap = draw(st.sampled_from(caps))
+    else:
+        cap, prefetch, m = cfg
+    dmax = (cap - 2 - 2 * (prefetch + 1) * m) // 2
+    d = draw(st.integers(1, max(1, min(dmax, 40))))
+    base = draw(st.one_of(st.integers(0, 65535), st.integers(65300, 65535)))
+    ts0 = draw(st.one_of(st.integers(0, 2**32 - 1), st.integers(2**32 - 300000, 2**32 - 1)))
+    nframes = draw(st.integers(5, 120 if tier == "quick" else 400))
+    sizes = [draw(st.integers(1, m)) for _ in range(nframes)] if m > 1 else [1] * nframes
+    n = sum(sizes)
+    # bounded two-sided displacement: stable sort by index + offset, offset in [0, d]
+    style = draw(st.sampled_from(["swaps", "random", "bursty"]))
+    if style == "swaps":
+        offs = [0] * n
+        i = 1
+        while i < n - 1:
+            if draw(st.integers(0, 2)) == 0:
+                offs[i] = 1.5  # packet i goes just behind packet i+1
+                i += 2
+            else:
+                i += 1
+    elif style == "random":
+        offs = [draw(st.integers(0, d)) + 0.0 for _ in range(n)]
+    else:
+        offs = [0.0] * n
+        i = 1
+        while i < n:
+            if draw(st.integers(0, 5)) == 0:
+                offs[i] = d + 0.5
+                i += d + 1
+            else:
+                i += 1
+    offs[0] = -1  # the first arrival defines the origin of the buffer
+    order = [i for _, i in sorted((i + o, i) for i, o in enumerate(offs))]
+    return {"capacity": cap, "prefetch": prefetch, "video": draw(st.booleans()) if cfg is None else cap == 128,
+            "base": base, "ts0": ts0, "sizes": sizes, "order": order, "d": d}
+
+
+def run_d(case: dict) -> Outcome:
+    cap, prefetch, base, sizes, order = case["capacity"], case["prefetch"], case["base"], case["sizes"], case["order"]
+    n = sum(sizes)
+    m = max(sizes) if sizes else 1
+    if not sizes or min(sizes) < 1 or sorted(order) != list(range(n)) or order[0] != 0:
+        return Outcome()
+    d = max(abs(pos - i) for pos, i in enumerate(order))
+    if 2 * d + 2 * (prefetch + 1) * m + 2 > cap:
+        return Outcome()  # outside the precondition (only ddmin can produce this)
+    frame_of, ts_of = [], []
+    for fi, sz in enumerate(sizes):
+        for _ in range(sz):
+            frame_of.append(fi)
+            ts_of.append((case["ts0"] + 3000 * fi) & 0xFFFFFFFF)
+    r = Run(cap, prefetch, case["video"])
+    released = []
+    data_of = {}
+    for pos, i in enumerate(order):
+        data_of[i] = token(pos, 5)
+        fr = r.add(base + i, ts_of[i], 5)
+        if r.error:
+            return Outcome(r.error[0], r.error[1], True, tuple(sorted(r.classes)))
+        if fr is not None:
+            released.append((fr.timestamp, fr.data))
+    used = {t for t in ts_of}
+    fts = ts_of[-1]
+    x = base + n
+    for _ in range(d + (prefetch + 1) * m + prefetch + 3):
+        fts = (fts + 3000) & 0xFFFFFFFF
+        while fts in used:
+            fts = (fts + 1) & 0xFFFFFFFF
+        fr = r.add(x, fts, 5)
+        x += 1
+        if r.error:
+            return Outcome(r.error[0], r.error[1], True, tuple(sorted(r.classes)))
+        if fr is not None:
+            released.append((fr.timestamp, fr.data))
+    classes = set(r.classes) | {f"cfg={cap}/{prefetch}/m{m}", "reorder" if d else "in-order"}
+    if (base & 0xFFFF) + n > 65535:
+        classes.add("wrap")
+    if "discard" in r.classes or "pli" in r.classes:
+        return Outcome(f"buffer discarded packets / asked for a key frame although arrivals were complete and displaced by at most {d} "
+                       f"positions (capacity {cap}, prefetch {prefetch}, frames of up to {m} packets)", "discard-in-complete", True, tuple(sorted(classes)))
+    want, pos = [], 0
+    for fi, sz in enumerate(sizes):
+        want.append(((case["ts0"] + 3000 * fi) & 0xFFFFFFFF, b"".join(data_of[pos + k] for k in range(sz))))
+        pos += sz
+    got = released[: len(want)]
+    for i, (w, g) in enumerate(zip(want, got)):
+        if w[0] != g[0]:
+            return Outcome(f"frame {i} (ts {w[0]}) not released in order: got ts {g[0]}", "frame-missing-or-reordered", True, tuple(sorted(classes)))
+        if w[1] != g[1]:
+            return Outcome(f"frame {i} was not released whole", "frame-not-whole", True, tuple(sorted(classes)))
+    if len(got) < len(want):
+        return Outcome(f"only {len(got)} of {len(want)} complete frames were released (displacement <= {d}, capacity {cap})",
+                       "frame-never-released", True, tuple(sorted(classes)))
+    return Outcome(None, None, d > 0, tuple(sorted(classes)))
+
+
 CHECK = Check(
     prop="C10",
     level="exploration",
@@ -400,7 +522,10 @@ CHECK = Check(
         "audio/video: A arbitrary (jumps of any size, duplicates, resets), B bounded lateness (< 100 positions behind the "
         "highest seen, forward jumps < 2^15, loss, duplication), C complete and displaced by less than the capacity "
         "(next arrival drawn interactively from packets within `capacity` of the oldest unreleased frame, then an in-order "
-        "flush). Every arrival carries a unique token so released frames decode into arrivals. Oracles: never raises, "
+        "flush), D complete streams of 5..120 frames in which every packet is displaced by at most d positions with "
+        "2d+2(prefetch+1)m+2 <= capacity (adjacent swaps / random offsets / bursts; includes the receiver's own 16/4 audio "
+        "and 128/0 video configurations) - a precondition that does not look at the buffer; B additionally replays "
+        "contiguous runs late, as retransmissions do. Every arrival carries a unique token so released frames decode into arrivals. Oracles: never raises, "
         "consecutive sequence numbers / one timestamp / previously added, occupancy <= capacity, video PLI whenever held "
         "packets vanish outside the returned frame; B: no sequence number in two frames, increasing frame order; C: every "
         "history frame exactly once, whole, in order. Non-trivial = history has reordering and (A/B) a discard, duplicate or "
@@ -410,6 +535,7 @@ CHECK = Check(
         Family("arbitrary", run_a, lambda tier: case_a(tier), quick=6000, thorough=300000),
         Family("bounded-lateness", run_b, lambda tier: case_b(tier), quick=5000, thorough=250000),
         Family("complete", run_c, lambda tier: case_c(tier), quick=4000, thorough=200000),
+        Family("displaced", run_d, lambda tier: case_d(tier), quick=3000, thorough=150000),
     ],
     floor=1000,
     assumptions=["the PLI clause reads the anchored ring JitterBuffer._packets to see which packets left the buffer"],
